@@ -1,6 +1,15 @@
-"""C02 — function arithmetic for every operand mix (DESIGN §5 C02)."""
+"""C02 — function arithmetic for every operand mix (DESIGN §5 C02).
+
+Written against the normal form (VIEW = 'norm'): extracted helpers are inlined and iterator chains with
+closures are explicit loops, so a `for` loop and the equivalent adaptor chain are the same thing here.
+The kernel / keys / branches rules are conditions on dataflow (which stores every path passes, what a
+stored value is computed from in EVERY alternative, which loop nest an accumulation sits in) plus tables
+of equivalent idioms; they do not count loops, calls or statements."""
 import os, json
 from .common import *
+from ..dataflow import node_of
+
+VIEW = 'norm'
 
 OPS = ('Add', 'Sub', 'Mul', 'Neg')
 CAP = {'f64': 0, 'v1::Linear': 1, '&v1::DecisionVariable': 1, '&v1::Parameter': 1, 'v1::Quadratic': 2, 'v1::Polynomial': 99, 'v1::Function': 99,
@@ -146,6 +155,390 @@ def deleg_rules(ctx, impls):
         ctx.check(ok, 'C02.from/u64', 'T-CONST', fb.name, 'Linear::from(id) is not single_term(id, 1.0)', fb.site())
 
 
+# =============================================================================== shared helpers
+# Everything below is formulated on dataflow (what a value is computed from, which store every path
+# passes) and on tables of equivalent idioms; nothing counts loops, calls or statements.
+
+SCALARS = ('f64', 'u64', 'i64', 'usize', 'bool', 'i32', 'u32')
+MAP_RE = re.compile(r'BTreeMap|HashMap|btree_map::|hash_map::')
+RESTRICT_RE = re.compile(r'Iterator>::(take|skip|filter|step_by|take_while|skip_while|filter_map|nth|map_while|rev_take)\b')
+
+
+def whole_defs(b, l):
+    return [d for d in b.defs_of(l) if not (d[0] == 'stmt' and d[2]['dst']['p'])]
+
+
+def callmap(b):
+    return {c.bb: c for c in b.calls}
+
+
+def memo(ctx, kind):
+    """per-check cache (kept on the context, so the release twin / another slicer never sees it)"""
+    return ctx.__dict__.setdefault('_c02_' + kind, {})
+
+
+def _expr_env(b, operand, env, multi, depth, stack):
+    """T.expr with one difference: a local with several whole-value definitions (the value of an
+    `if` / `match` expression, a `let x; if .. {x = a} else {x = b}`) is resolved by `env`
+    (local -> index of the chosen definition); unresolved ones are reported in `multi`.
+    Leaves that are places carry the original place as 4th element (for precise slicing)."""
+    if operand['k'] == 'const': return T.expr(b, operand, min(depth, 6))
+    if operand['k'] not in ('copy', 'move'): return ('local', -1)
+    pl = operand['pl']; fs = fields_of_place(pl); l = pl['l']
+    def leaf(): return ('place', l, fs, pl) if fs else ('local', l)
+    if depth <= 0: return leaf()
+    if 1 <= l <= b.argc: return ('place', l, fs, pl)
+    if l in T._mut_borrowed(b) and b.locals[l] in SCALARS: return leaf()
+    defs = whole_defs(b, l)
+    if len(defs) != 1:
+        if len(defs) < 2 or l in stack: return leaf()
+        if l not in env:
+            multi.add(l); return leaf()
+        defs = [defs[env[l] % len(defs)]]
+    k, bi, d = defs[0]
+    st2 = stack | {l}
+    def sub(o): return _expr_env(b, o, env, multi, depth - 1, st2)
+    if k == 'call':
+        c = next((x for x in b.calls if x.bb == bi), None)
+        if c is None: return leaf()
+        node = ('call', c.item, c.name, [sub(a) for a in d['args']], bi)
+        return ('proj', node, fs) if fs else node
+    rv = d['rv']; kk = rv['k']
+    if kk == 'use': inner = sub(rv['ops'][0])
+    elif kk == 'ref': inner = sub({'k': 'copy', 'pl': rv['pl']})
+    elif kk == 'bin': inner = ('bin', rv['op'], sub(rv['ops'][0]), sub(rv['ops'][1]))
+    elif kk == 'un': inner = ('un', rv['op'], sub(rv['ops'][0]))
+    elif kk == 'cast': inner = ('cast', rv['to'], sub(rv['ops'][0]))
+    elif kk == 'agg': inner = ('agg', rv['adt'], [sub(o) for o in rv['ops']])
+    elif kk == 'discr': inner = ('discr', sub({'k': 'copy', 'pl': rv['pl']}))
+    else: inner = ('local', l)
+    if fs:
+        while fs and inner[0] == 'agg' and inner[1] == 'tuple' and fs[0][0] == 'tuple' and fs[0][1].isdigit() and int(fs[0][1]) < len(inner[2]):
+            inner = inner[2][int(fs[0][1])]; fs = fs[1:]
+        if not fs: return inner
+        if inner[0] == 'place': return ('place', inner[1], inner[2] + fs) + tuple(inner[3:4])
+        if inner[0] == 'proj': return ('proj', inner[1], inner[2] + fs)
+        return ('proj', inner, fs)
+    return inner
+
+
+def expr_alts(b, operand, cap=16):
+    """every way `operand` can be computed: one expression tree per consistent choice among the
+    definitions of the multiply-defined locals it goes through (choices are correlated: a local used
+    twice gets the same definition both times).  Returns (trees, complete)."""
+    out = []; work = [{}]; complete = True
+    while work:
+        if len(out) >= cap: complete = False; break
+        env = work.pop()
+        multi = set()
+        e = _expr_env(b, operand, env, multi, 24, frozenset())
+        if not multi: out.append(e); continue
+        l = min(multi)
+        for i in range(len(whole_defs(b, l))): work.append({**env, l: i})
+    return out, complete
+
+
+def local_op(l):
+    return {'k': 'copy', 'pl': {'l': l, 'p': []}}
+
+
+def expr_params(ctx, b, e):
+    """parameters the leaves of an expression tree derive from"""
+    ps = set()
+    for x in T.expr_walk(e):
+        if x[0] == 'place':
+            if 1 <= x[1] <= b.argc: ps.add(x[1])
+            else: ps |= ctx.S.backslice(b, [node_of(x[3])] if len(x) > 3 else [x[1]]).params
+        elif x[0] == 'local' and x[1] >= 0:
+            ps |= ctx.S.backslice(b, [x[1]]).params
+    return ps
+
+
+def expr_has_field(e, adt, field):
+    return any(f == field and (a == adt or a.endswith('::' + adt)) for a, f in T.expr_fields(e))
+
+
+def ops_kind(name_or_trait):
+    m = re.search(r'ops::(Add|Sub|Mul|Neg)\b', name_or_trait or '')
+    return m.group(1) if m else None
+
+
+def ops_calls_in(e, kind):
+    """operator-trait call nodes of an expression tree"""
+    return [x for x in T.expr_calls(e) if x[1] == kind.lower() and ops_kind(x[2]) == kind]
+
+
+# ---- stores to a field ----------------------------------------------------------------------
+# equivalent ways of giving `x.field` a value (one comment per idiom):
+#   x.field = v                      assignment statement
+#   X { field: v, .. }               aggregate of the ADT
+#   x.field.insert(v) / replace(v) / get_or_insert(v) / get_or_insert_with(..)   Option in-place setters
+OPTION_SETTERS = ('insert', 'replace', 'get_or_insert', 'get_or_insert_with')
+
+
+def _adt_is(a, adt):
+    return a == adt or a.endswith('::' + adt)
+
+
+def field_stores(b, adt, field):
+    """[(bb, value operand or None, rvalue or None)] for every store to adt.field in body b"""
+    out = []
+    for bi, st in b.stmts():
+        fs = fields_of_place(st['dst'])
+        if st['dst']['p'] and fs and fs[-1][1] == field and _adt_is(fs[-1][0], adt):
+            rv = st['rv']
+            out.append((bi, rv['ops'][0] if rv['k'] == 'use' else None, rv))
+        rv = st['rv']
+        if rv['k'] == 'agg' and _adt_is(rv['adt'], adt) and field in rv['fields']:
+            out.append((bi, rv['ops'][rv['fields'].index(field)], None))
+    for c in b.calls:
+        if c.item in OPTION_SETTERS and 'Option' in c.name and len(c.args) >= 2:
+            fs = T.access_path(b, c.args[0])[0]
+            if fs and fs[-1][1] == field and _adt_is(fs[-1][0], adt): out.append((c.bb, c.args[1], None))
+    return out
+
+
+def store_alts(b, store):
+    bi, op, rv = store
+    if op is not None: return expr_alts(b, op)
+    return [T._rv_expr(b, rv)], True
+
+
+def return_blocks(b):
+    return set(b.return_blocks())
+
+
+# ---- merging into a map ---------------------------------------------------------------------
+# equivalent ways of `map[key] += v` (one comment per idiom):
+#   *map.entry(k).or_default() += v / .or_insert(0.0) / .or_insert_with(..)      in-place add through the entry
+#   match map.entry(k) { Occupied(e) => *e.get_mut() += v, Vacant(e) => e.insert(v) }
+#   if let Some(x) = map.get_mut(&k) { *x += v } else { map.insert(k, v) }       get + insert
+#   map.insert(k, map.get(&k).copied().unwrap_or(0.0) + v)                        insert of old + v
+#   map.entry(k).and_modify(|x| *x += v).or_insert(v)
+# An add site is an f64 `+` / `+=` whose one operand is read through a lookup in the map; an insert site
+# counts only where a lookup in a map decides that the key is absent.
+LOOKUP_ITEMS = ('entry', 'get', 'get_mut', 'contains_key', 'get_key_value')
+
+
+def _lookup_nodes(e):
+    """calls of the map's own lookup methods (not of an Entry / OccupiedEntry object)"""
+    return [x for x in T.expr_calls(e) if x[1] in LOOKUP_ITEMS and re.search(r'(BTreeMap|HashMap)::<', x[2]) and 'Entry' not in x[2].split('::<')[0]]
+
+
+def _closure_has_f64_add(ctx, cname):
+    cb = ctx.F.bodies.get(cname)
+    if cb is None: return False
+    return any(st['rv']['k'] == 'bin' and st['rv']['op'] == 'Add' and st['rv'].get('ty') == 'f64' for bi, st in cb.stmts()) or \
+           any(T.ASSIGN_CALL.match(c.name) and 'AddAssign' in c.name for c in cb.calls)
+
+
+def accum_sites(ctx, b):
+    """sites where a value is merged into / put into a map.
+    [dict(bb, kind, key=operand, val=operand, map=root local)] with kind
+      'add'        the value is added to what the map holds for the key (in place, or as `old + v` that is inserted)
+      'insert'     plain insert where a lookup has just decided that the key is absent
+      'sum-insert' insert of a sum `old + v` (its 'add' site is where the sum is computed)
+      'overwrite'  plain insert not guarded by a lookup: an existing entry for the key is lost"""
+    cache = memo(ctx, 'accum')
+    if b.name in cache: return cache[b.name]
+    sites = []
+    cm = callmap(b)
+
+    def from_lookup(ptr_operand):
+        e = T.expr(b, ptr_operand)
+        ls = _lookup_nodes(e)
+        if not ls: return None
+        c = cm[ls[0][4]]
+        return c
+
+    def site(bb, kind, look_call, val, key=None, mp=None):
+        if look_call is not None:
+            key = look_call.args[1] if len(look_call.args) > 1 else None
+            mp = T.access_path(b, look_call.args[0], transparent=T.TRANSPARENT_NOCLONE)[1]
+        sites.append(dict(bb=bb, kind=kind, key=key, val=val, map=mp))
+
+    for bi, st in b.stmts():
+        rv = st['rv']
+        if rv['k'] == 'bin' and rv['op'] == 'Add' and rv.get('ty') == 'f64' and st['dst']['p']:
+            others = [o for o in rv['ops'] if not (o['k'] in ('copy', 'move') and o['pl'] == st['dst'])]
+            if len(others) != 1: continue
+            c = from_lookup(local_op(st['dst']['l']))
+            if c is not None: site(bi, 'add', c, others[0])
+    for c in b.calls:
+        if T.ASSIGN_CALL.match(c.name) and 'AddAssign' in c.name:
+            lc = from_lookup(c.args[0])
+            if lc is not None: site(c.bb, 'add', lc, c.args[1])
+        elif c.item == 'insert' and (MAP_RE.search(c.name) or 'VacantEntry' in c.name):
+            val = c.args[-1]
+            if 'VacantEntry' in c.name:
+                lc = from_lookup(c.args[0]); key = lc.args[1] if lc is not None and len(lc.args) > 1 else None
+                mp = T.access_path(b, lc.args[0], transparent=T.TRANSPARENT_NOCLONE)[1] if lc is not None else None
+            else:
+                key = c.args[1] if len(c.args) == 3 else None
+                mp = T.access_path(b, c.args[0], transparent=T.TRANSPARENT_NOCLONE)[1]
+            # insert(k, old + v) with `old` read from the map: the merging happens where the sum is computed
+            # (the insert itself may be skipped for a sum that cancels — the documented dropping of ~0 coefficients)
+            ve = T.arith(T.expr(b, val))
+            if ve[0] == 'bin' and ve[1] == 'Add' and any(_lookup_nodes(x) for x in (ve[2], ve[3])):
+                vs = ctx.S.slice_operand(b, val)
+                for bi, st in b.stmts():
+                    rv = st['rv']
+                    if rv['k'] == 'bin' and rv['op'] == 'Add' and rv.get('ty') == 'f64' and not st['dst']['p'] and st['dst']['l'] in vs.locals:
+                        looked = [o for o in rv['ops'] if _lookup_nodes(T.expr(b, o))]
+                        others = [o for o in rv['ops'] if not _lookup_nodes(T.expr(b, o))]
+                        if len(looked) == 1 and len(others) == 1: site(bi, 'add', from_lookup(looked[0]), others[0])
+                sites.append(dict(bb=c.bb, kind='sum-insert', key=key, val=val, map=mp))
+                continue
+            # guarded by a lookup: a switch dominating the insert whose discriminant comes from a lookup in a map
+            guarded = False
+            for sb in b.dom.get(c.bb, ()):
+                t = b.blocks[sb]['term']
+                if t['k'] == 'switch' and t['d']['k'] != 'const' and _lookup_nodes(T.expr(b, t['d'])):
+                    guarded = True
+            if 'VacantEntry' in c.name: guarded = True          # a vacant entry exists only for an absent key
+            sites.append(dict(bb=c.bb, kind='insert' if guarded else 'overwrite', key=key, val=val, map=mp))
+        elif c.item in ('or_insert', 'or_insert_with') and MAP_RE.search(c.name) and len(c.args) == 2:
+            # .and_modify(|x| *x += v).or_insert(v)
+            e = T.expr(b, c.args[0])
+            am = [x for x in T.expr_calls(e) if x[1] == 'and_modify']
+            if am and any(_closure_has_f64_add(ctx, cl) for cl in ctx.S.slice_operand(b, cm[am[0][4]].args[1]).closures):
+                lc = from_lookup(c.args[0])
+                if lc is not None: site(c.bb, 'add', lc, c.args[1])
+    cache[b.name] = sites
+    return sites
+
+
+def loops_of(ctx, b):
+    """`for`-style loops with what their iterator derives from: [dict(lo, call, header, some, none, blocks, it=Slice)]"""
+    cache = memo(ctx, 'loops')
+    if b.name in cache: return cache[b.name]
+    out = []
+    for lo in T.for_loops(b):
+        c, header, some_bb, none_bb, blocks = lo
+        out.append(dict(lo=lo, call=c, header=header, some=some_bb, none=none_bb, blocks=blocks, it=ctx.S.slice_operand(b, c.args[0])))
+    cache[b.name] = out
+    return out
+
+
+def innermost_loop(loops, bb):
+    best = None
+    for L in loops:
+        if bb in L['blocks'] and (best is None or len(L['blocks']) < len(best['blocks'])): best = L
+    return best
+
+
+def restricted(it_slice):
+    """element-dropping adaptors applied in THIS body to the iterator (callee summaries are not consulted:
+    `IntoIterator for &Linear` legitimately filters zero coefficients)"""
+    return sorted({m.group(1) for c in it_slice.call_objs for m in [RESTRICT_RE.search(c.name)] if m})
+
+
+def loop_merges(b, L, sites):
+    """every pass through the body of loop L goes through an add site or a lookup-guarded insert of the map"""
+    via = {s['bb'] for s in sites if s['bb'] in L['blocks'] and s['kind'] in ('add', 'insert')}
+    adds = [s for s in sites if s['bb'] in L['blocks'] and s['kind'] == 'add']
+    return bool(adds) and T.must_pass(b, L['some'], {L['header']}, via), adds
+
+
+def weakly(ctx, rid, template, b, why):
+    """the precise shape was not recognised, but the weaker necessary condition of the same clause was
+    checked and holds: the precise instance is undecided, the weaker one is a decided instance"""
+    ctx.undecided(rid, template, b.site(), why)
+    ctx.ok(rid + '/weaker', template, b.site(), why=why)
+
+
+def crate_callees(ctx, c):
+    """crate bodies a call may run: the resolved callee, or — for `it.collect::<T>()` / `T::from_iter(it)` with
+    a crate type T — every `FromIterator` impl of T (the item type is not visible at the call)"""
+    cb = ctx.F.bodies.get(c.path) or ctx.F.bodies.get(c.name)
+    if cb is not None: return [cb] if cb.kind == 'fn' else []
+    if c.item in ('collect', 'from_iter') and c.gargs:
+        ty = c.gargs[-1] if c.item == 'collect' else c.gargs[0]
+        return [x for x in ctx.F.method(ty, 'from_iter', trait='FromIterator') if x.kind == 'fn']
+    return []
+
+
+def call_sink_params(ctx, c, _depth=0):
+    """parameters of call c whose iterator is merged item by item by every body the call may run"""
+    cbs = crate_callees(ctx, c)
+    if not cbs: return set()
+    out = None
+    for cb in cbs:
+        ps = merge_sink_params(ctx, cb, _depth)
+        out = ps if out is None else out & ps
+    return out or set()
+
+
+def merge_sink_params(ctx, body, _depth=0):
+    """parameters i of a crate function such that every item of the iterator passed as parameter i is
+    merged into a map by `map[item key] += item value`, and the result is built from that map
+    (Linear::new, the FromIterator impls of Linear / Quadratic / Polynomial on the pinned tree — decided
+    from the body, not from the name)."""
+    cache = memo(ctx, 'sinks')
+    if body.name in cache: return cache[body.name]
+    cache[body.name] = set()
+    out = set()
+    sites = accum_sites(ctx, body)
+    rs = ctx.S.backslice(body, [0])
+    for L in loops_of(ctx, body):
+        ps = L['it'].params
+        if len(ps) != 1 or restricted(L['it']): continue
+        ok, adds = loop_merges(body, L, sites)
+        if not ok: continue
+        if any(s['kind'] == 'overwrite' and s['bb'] in L['blocks'] for s in sites): continue
+        if not all(s['map'] is not None and s['map'] in rs.locals for s in adds): continue
+        out |= ps
+    if _depth < 3:
+        # the result is the result of another sink fed with the parameter (from_iter -> new)
+        for c in body.calls:
+            if c not in rs.call_objs: continue
+            if body in crate_callees(ctx, c): continue
+            for j in call_sink_params(ctx, c, _depth + 1):
+                if j - 1 < len(c.args):
+                    s = ctx.S.slice_operand(body, c.args[j - 1])
+                    if len(s.params) == 1 and not restricted(s): out |= s.params
+    cache[body.name] = out
+    return out
+
+
+def result_field_source(ctx, body, adt, field, _depth=0):
+    """how field adt.field of the value returned by a crate function is produced:
+    ('param', j) if it is parameter j verbatim, ('expr', tree) otherwise, None if not recognised"""
+    alts, complete = expr_alts(body, local_op(0))
+    if not complete or len(alts) != 1: return None
+    e = T.strip_wrappers(alts[0])
+    if e[0] == 'agg' and _adt_is(e[1], adt):
+        for bi, st in find_aggregates(body, adt):
+            if field in st['rv']['fields']:
+                v = T.arith(T.expr(body, st['rv']['ops'][st['rv']['fields'].index(field)]))
+                if v[0] == 'place' and not v[2] and 1 <= v[1] <= body.argc: return ('param', v[1])
+                return ('expr', v)
+    return None
+
+
+# =============================================================================== C02.dispatch
+def payload_sources(ctx, b, operand, depth=0):
+    """{(side, variant)} the operand may come from: side 0 = payload of self's oneof, 1 = of rhs's.
+    The side is decided by dataflow (which parameter the matched enum value derives from), so
+    `match (lhs, rhs)`, nested matches and matches on references look the same."""
+    out = set()
+    if operand['k'] not in ('copy', 'move') or depth > 4: return out
+    pl = operand['pl']
+    base = []; var = None
+    for p in pl['p']:
+        if isinstance(p, dict) and 'dc' in p:
+            var = p['dc']; break
+        base.append(p)
+    if var is not None and any('function::Function::' in a for a, f in fields_of_place(pl)):
+        ps = ctx.S.backslice(b, [node_of({'l': pl['l'], 'p': base})]).params
+        if len(ps) == 1: return {(min(ps) - 1, var)}
+        return out
+    for k, bi, d in b.defs_of(pl['l']):
+        if k == 'stmt' and d['rv']['k'] in ('use', 'ref') and not d['dst']['p']:
+            out |= payload_sources(ctx, b, d['rv']['ops'][0] if d['rv']['k'] == 'use' else {'k': 'copy', 'pl': d['rv']['pl']}, depth + 1)
+    return out
+
+
 def dispatch_rules(ctx):
     R = 'C02.dispatch'
     en = ctx.F.adt('v1::function::Function')
@@ -162,31 +555,20 @@ def dispatch_rules(ctx):
         wrong = [c for c in calls if not c.trait.endswith('ops::' + op)]
         ctx.check(not wrong, R + '/%s/same-operation' % op, 'T-CARRY', b.name, 'an arm of %s uses another operator: %s' % (op, [c.name[:50] for c in wrong]), b.site())
         covered = set()
-        def sources(operand, depth=0):
-            """{(side, variant)} the operand may come from: side 0 = self payload, 1 = rhs payload"""
-            out = set()
-            if operand['k'] not in ('copy', 'move') or depth > 4: return out
-            pl = operand['pl']
-            fs = fields_of_place(pl)
-            side = [f for a, f in fs if a == 'tuple']; var = [a.split('::')[-1] for a, f in fs if 'function::Function::' in a]
-            if side and var: return {(int(side[0]), var[0])}
-            for k, bi, d in b.defs_of(pl['l']):
-                if k == 'stmt' and d['rv']['k'] == 'use' and not d['dst']['p']: out |= sources(d['rv']['ops'][0], depth + 1)
-            return out
+        rs = ctx.S.backslice(b, [0])
         for c in calls:
             if not c.trait.endswith('ops::' + op): continue
-            s0 = sources(c.args[0]); s1 = sources(c.args[1])
+            s0 = payload_sources(ctx, b, c.args[0]); s1 = payload_sources(ctx, b, c.args[1])
             pairs = {tuple(sorted([x, y])) for x in s0 for y in s1 if x[0] != y[0]}
             ctx.check(bool(pairs), R + '/%s/uses-both-payloads@%s' % (op, b.site(c.bb)), 'T-CARRY', b.name, 'operator call does not combine the lhs payload with the rhs payload (%s, %s)' % (sorted(s0), sorted(s1)), b.site(c.bb))
             for p in pairs:
                 covered.add((p[0][1], p[1][1]))       # (variant of side 0, variant of side 1)
             # result wrapped and returned
-            rs = ctx.S.backslice(b, [0])
             ctx.check(c in rs.call_objs, R + '/%s/result-returned@%s' % (op, b.site(c.bb)), 'T-CARRY', b.name, 'result of the arm is not returned', b.site(c.bb))
         # f64 payloads are combined by the built-in operator
         for bi, st in b.stmts():
             if st['rv']['k'] == 'bin' and st['rv'].get('ty') == 'f64':
-                s0 = sources(st['rv']['ops'][0]); s1 = sources(st['rv']['ops'][1])
+                s0 = payload_sources(ctx, b, st['rv']['ops'][0]); s1 = payload_sources(ctx, b, st['rv']['ops'][1])
                 pairs = {tuple(sorted([x, y])) for x in s0 for y in s1 if x[0] != y[0]}
                 if pairs:
                     ctx.check(st['rv']['op'] == op, R + '/%s/same-operation-f64' % op, 'T-CARRY', b.name, 'the constant arm of %s computes %s' % (op, st['rv']['op']), b.site(bi))
@@ -194,6 +576,86 @@ def dispatch_rules(ctx):
         want = {(x, y) for x in variants for y in variants}
         ctx.check(covered == want, R + '/%s/all-variant-pairs' % op, 'T-BRANCHFX', b.name, 'variant pairs without an arm: %s' % sorted(want - covered)[:6], b.site(), pairs=len(covered))
     ctx.floor(R, 24)
+
+
+# =============================================================================== C02.branches
+def _linear_part_rule(ctx, b, rid):
+    """`Quadratic + X` (X = Linear | f64): in every case the right operand ends up in the linear part of
+    the result, and an existing linear part is added to (not replaced).
+    Formulated on the stores to `.linear`: whatever way the stored value is computed (one store per
+    branch, one store of a `match` value, Option setters), EVERY alternative depends on rhs, and one
+    alternative is `old linear + rhs`."""
+    stores = field_stores(b, 'v1::Quadratic', 'linear')
+    probs = []; weak = []
+    alts = []
+    for s in stores:
+        a, complete = store_alts(b, s)
+        if not complete: weak.append('too many alternatives for the value stored at %s' % b.site(s[0]))
+        alts += [(s, e) for e in a]
+    for s, e in alts:
+        if 2 not in expr_params(ctx, b, e):
+            probs.append('the value stored into the linear part at %s does not depend on the right operand (%s)' % (b.site(s[0]), T.expr_str(e, 4)))
+    def combines(e):
+        for x in ops_calls_in(e, 'Add'):
+            a0, a1 = x[3][0], x[3][1]
+            for l, r in ((a0, a1), (a1, a0)):
+                if expr_has_field(l, 'v1::Quadratic', 'linear') and 1 in expr_params(ctx, b, l) and 2 in expr_params(ctx, b, r): return True
+        return False
+    if not any(combines(e) for s, e in alts):
+        # the same on slices (covers in-place idioms the store table does not know)
+        addc = [c for c in b.calls if is_ops_call(c) and ops_kind(c.trait) == 'Add']
+        def side(o, p, fld): s_ = ctx.S.slice_operand(b, o); return p in s_.params and (not fld or s_.has_field('v1::Quadratic', 'linear'))
+        if any((side(c.args[0], 1, True) and side(c.args[1], 2, False)) or (side(c.args[1], 1, True) and side(c.args[0], 2, False)) for c in addc):
+            weak.append('`old linear part + rhs` exists but is not the value of a recognised store')
+        else:
+            probs.append('an existing linear part is not added to the right operand')
+    if not stores or not T.must_pass(b, 0, return_blocks(b), {s[0] for s in stores}):
+        # some path returns without a recognised store: decide on the slice of the returned value's linear part
+        rs = ctx.S.backslice(b, [(0, 'linear')])
+        if {1, 2} <= rs.params: weak.append('a path returns without a recognised store to the linear part; the returned linear part depends on both operands')
+        else: probs.append('a path returns without storing the right operand into the linear part')
+    if probs:
+        ctx.bad(rid, 'T-BRANCHFX', b.name, 'with and without an existing linear part the right operand must end up in the result\'s linear part: ' + '; '.join(probs), b.site())
+    elif weak:
+        weakly(ctx, rid, 'T-BRANCHFX', b, '; '.join(weak))
+    else:
+        ctx.ok(rid, 'T-BRANCHFX', b.site(), stores=len(stores), alternatives=len(alts))
+
+
+def scale_sites(ctx, b):
+    """f64 multiplications by the scalar parameter (param 2): [(bb, other operand)].
+    Idioms: `x *= rhs` (MulAssign call or in-place `x = x * rhs`), `x * rhs` / `rhs * x` as a value."""
+    out = []
+    def is_rhs(o):
+        return T.strip_wrappers(T.expr(b, o))[:3] == ('place', 2, [])
+    for bi, st in b.stmts():
+        rv = st['rv']
+        if rv['k'] == 'bin' and rv['op'] == 'Mul' and rv.get('ty') == 'f64':
+            a, c = rv['ops']
+            if is_rhs(c): out.append((bi, a))
+            elif is_rhs(a): out.append((bi, c))
+    for c in b.calls:
+        m = T.ASSIGN_CALL.match(c.name)
+        if m and m.group(1) == 'Mul' and is_rhs(c.args[1]): out.append((c.bb, c.args[0]))
+        m = T.ARITH_CALL.match(c.name)
+        if m and m.group(2) == 'Mul' and len(c.args) == 2:
+            if is_rhs(c.args[1]): out.append((c.bb, c.args[0]))
+            elif is_rhs(c.args[0]): out.append((c.bb, c.args[1]))
+    return out
+
+
+def scaled_in_loop(ctx, b, adt, field):
+    """loops over param 1's data in which every pass multiplies adt.field (of the item / element) by rhs: [loop]"""
+    res = []
+    loops = loops_of(ctx, b)
+    for bb, other in scale_sites(ctx, b):
+        L = innermost_loop(loops, bb)
+        if L is None or 1 not in L['it'].params or restricted(L['it']): continue
+        s = ctx.S.slice_operand(b, other)
+        if not s.has_field(adt, field): continue
+        via = {bb2 for bb2, o2 in scale_sites(ctx, b) if bb2 in L['blocks'] and ctx.S.slice_operand(b, o2).has_field(adt, field)}
+        if T.must_pass(b, L['some'], {L['header']}, via) and L not in res: res.append(L)
+    return res
 
 
 def branches_rules(ctx):
@@ -205,34 +667,33 @@ def branches_rules(ctx):
             ctx.lost(R + '/%s_%s_%s' % (lhs, op, rhs), 'impl'); continue
         ctx.fn(b)
         rid = R + '/%s_%s_%s' % (lhs.split('::')[-1], op, rhs.split('::')[-1])
-        ws = [(bi, st) for bi, st in b.stmts() if st['dst']['p'] and fields_of_place(st['dst'])[-1:] == [('v1::Quadratic', 'linear')]]
+        stores = field_stores(b, 'v1::Quadratic', 'linear')
         if (lhs, op, rhs) == ('v1::Quadratic', 'Mul', 'f64'):
             # Some(l) => Some(l * rhs); None stays None; values scaled by rhs
-            okv = any(T.ASSIGN_CALL.match(c.name) and 'Mul' in c.name and 2 in ctx.S.slice_operand(b, c.args[1]).params for c in b.calls) or \
-                  any(st['rv']['k'] == 'bin' and st['rv']['op'] == 'Mul' and st['rv'].get('ty') == 'f64' for bi, st in b.stmts())
-            okl = any(any(c.item == 'mul' and 2 in ctx.S.slice_operand(b, c.args[1]).params for c in ctx.S.slice_operand(b, st['rv']['ops'][0]).call_objs) for bi, st in ws)
+            okv = bool(scaled_in_loop(ctx, b, 'v1::Quadratic', 'values'))
+            okl = False
+            for s in stores:
+                for e in store_alts(b, s)[0]:
+                    for x in ops_calls_in(e, 'Mul'):
+                        a0, a1 = x[3][0], x[3][1]
+                        for l, r in ((a0, a1), (a1, a0)):
+                            if expr_has_field(l, 'v1::Quadratic', 'linear') and 1 in expr_params(ctx, b, l) and T.strip_wrappers(r)[:3] == ('place', 2, []): okl = True
             ctx.check(okv and okl, rid, 'T-BRANCHFX', b.name, 'scalar multiplication does not scale both the quadratic values and the linear part', b.site())
             continue
-        tests = option_field_tests(b, 'v1::Quadratic', 'linear')
         if (lhs, op, rhs) == ('v1::Quadratic', 'Add', 'v1::Quadratic'):
-            # result.linear depends on both operands' linear parts in every case
-            ok = False
-            for bi, st in ws:
-                s = ctx.S.slice_operand(b, st['rv']['ops'][0])
-                ok = {1, 2} <= s.params
-            ctx.check(ok and len(ws) >= 1, rid, 'T-BRANCHFX', b.name, 'the linear part of the sum does not combine both operands\' linear parts', b.site())
+            # result.linear is built from both operands' linear parts; where both exist they are added
+            both = False; roots = set()
+            for s in stores:
+                if s[1] is not None: roots |= {(p, f) for p, a, f in ctx.S.slice_operand(b, s[1]).root_fields}
+                for e in store_alts(b, s)[0]:
+                    for x in ops_calls_in(e, 'Add'):
+                        ps = [expr_params(ctx, b, a) for a in x[3][:2]]
+                        fl = [expr_has_field(a, 'v1::Quadratic', 'linear') for a in x[3][:2]]
+                        if all(fl) and ((1 in ps[0] and 2 in ps[1]) or (2 in ps[0] and 1 in ps[1])): both = True
+            ok = both and {(1, 'linear'), (2, 'linear')} <= roots and bool(stores) and T.must_pass(b, 0, return_blocks(b), {s[0] for s in stores})
+            ctx.check(ok, rid, 'T-BRANCHFX', b.name, 'the linear part of the sum does not combine both operands\' linear parts', b.site())
             continue
-        # Some / None regions: in both the resulting linear part depends on rhs
-        ok = len(tests) == 1 and len(ws) == 2
-        if ok:
-            sb, sm, nn = tests[0]
-            sr = b.reach([sm]) - b.reach([nn]); nr = b.reach([nn]) - b.reach([sm])
-            for bi, st in ws:
-                s = ctx.S.slice_operand(b, st['rv']['ops'][0])
-                if bi in sr: ok = ok and 2 in s.params and 1 in s.params and any(c.item == 'add' for c in s.call_objs)
-                elif bi in nr: ok = ok and 2 in s.params
-                else: ok = False
-        ctx.check(ok, rid, 'T-BRANCHFX', b.name, 'with and without an existing linear part the right operand must end up in the result\'s linear part', b.site())
+        _linear_part_rule(ctx, b, rid)
     ctx.floor(R, 4)
 
 
@@ -268,42 +729,143 @@ def iter_rules(ctx):
     ctx.floor(R, 12)
 
 
+# =============================================================================== C02.keys
+# equivalent ways of writing the ordered pair of two ids a, b (one comment per idiom):
+#   if a < b { (a, b) } else { (b, a) }      (any of < <= > >=, either arm order)
+#   (a.min(b), a.max(b)) / (min(a, b), max(a, b))
+#   (a, b) unordered, when the consumer orders it (FromIterator<((u64,u64),f64)> for Quadratic does, and is checked)
+def _minmax(e):
+    e = T.strip_wrappers(e)
+    if e[0] == 'call' and e[1] in ('min', 'max') and re.search(r'cmp::(Ord|min|max)|Ord>::(min|max)', e[2]) and len(e[3]) == 2:
+        return e[1], e[3]
+    return None, None
+
+
+def pair_alts(b, key_operand):
+    """the alternatives of a 2-tuple key: [(component0, component1)] as expression trees, or None"""
+    alts, complete = expr_alts(b, key_operand)
+    out = []
+    for e in alts:
+        e = T.strip_wrappers(e)
+        if e[0] != 'agg' or e[1] != 'tuple' or len(e[2]) != 2: return None
+        out.append((e[2][0], e[2][1]))
+    return out if complete and out else None
+
+
+def ordered_pair(b, alts, ident):
+    """'ordered' | 'unordered' (both ids, one per component, but not ordered here) | 'bad: why'.
+    ident(tree) names what a component is (which operand's id / which component of the incoming key)."""
+    kinds = set()
+    for e0, e1 in alts:
+        k0, a0 = _minmax(e0); k1, a1 = _minmax(e1)
+        if k0 or k1:
+            if not (k0 and k1 and {k0, k1} == {'min', 'max'}): return 'bad: %s / %s' % (T.expr_str(e0, 3), T.expr_str(e1, 3))
+            i0 = {ident(x) for x in a0}; i1 = {ident(x) for x in a1}
+            if i0 != i1 or len(i0) != 2 or None in i0: return 'bad: min/max of %s and %s' % (sorted(map(str, i0)), sorted(map(str, i1)))
+            kinds.add(('mm', frozenset(i0)))
+        else:
+            x, y = ident(e0), ident(e1)
+            if x is None or y is None or x == y: return 'bad: components are %s, %s' % (T.expr_str(e0, 3), T.expr_str(e1, 3))
+            kinds.add(('pp', (x, y)))
+    mm = {k[1] for k in kinds if k[0] == 'mm'}; pp = {k[1] for k in kinds if k[0] == 'pp'}
+    if mm and not pp and len(mm) == 1: return 'ordered'
+    if pp and not mm:
+        ids = {frozenset(p) for p in pp}
+        if len(ids) != 1: return 'bad: alternatives use different ids'
+        if len(pp) == 2:
+            # both orders exist: the choice must be made by comparing the two ids
+            A = next(iter(ids))
+            for bi, st in b.stmts():
+                rv = st['rv']
+                if rv['k'] == 'bin' and rv['op'] in ('Lt', 'Le', 'Gt', 'Ge') and rv.get('ty') in ('u64', None):
+                    es = [_expr_env(b, o, {}, set(), 12, frozenset()) for o in rv['ops']]
+                    if {ident(es[0]), ident(es[1])} == set(A): return 'ordered'
+            return 'bad: both orders occur but no comparison of the two ids chooses between them'
+        return 'unordered'
+    return 'bad: mixed'
+
+
+def feeds_canonicalising_consumer(ctx, b, map_local):
+    """the map is turned into a Quadratic by FromIterator / collect (which orders and merges the keys)"""
+    for c in b.calls:
+        if c.item in ('collect', 'from_iter') and ('v1::Quadratic' in c.name or any('v1::Quadratic' == g for g in c.gargs)) and c.args:
+            if map_local in ctx.S.slice_operand(b, c.args[0]).locals: return True
+    return False
+
+
+def every_pair(ctx, b, sites):
+    """the add sites lie in a loop nest over both operands: inner loop merges every item, and every pass
+    through the outer loop's body runs the inner loop; neither iterator is restricted"""
+    loops = loops_of(ctx, b)
+    for s in sites:
+        if s['kind'] != 'add': continue
+        Li = innermost_loop(loops, s['bb'])
+        if Li is None: continue
+        outer = [L for L in loops if L is not Li and Li['blocks'] < L['blocks']]
+        for Lo in outer:
+            pi = Li['it'].params; po = Lo['it'].params
+            # the inner iterator may also depend on the outer item (flat_map/map capturing it)
+            if not ((1 in po and 2 in pi) or (2 in po and 1 in pi)): continue
+            if restricted(Li['it']) or restricted(Lo['it']): continue
+            ok_in, _ = loop_merges(b, Li, sites)
+            if not ok_in: continue
+            if not T.must_pass(b, Lo['some'], {Lo['header']}, {Li['header']}): continue
+            return True
+    return False
+
+
 def keys_rules(ctx):
     R = 'C02.keys'
-    # Linear * Linear: key = (min, max) of the two ids; value += a.c * b.c
+    # Linear * Linear: key = the pair of the two ids; value += a.c * b.c
     b = ctx.F.one('v1::Linear', 'mul', trait='Mul', targs=['v1::Linear'])
     if b is None: ctx.lost(R + '/Linear*Linear', 'Mul for Linear')
     else:
         ctx.fn(b)
-        ent = [c for c in b.calls if c.item == 'entry' and 'BTreeMap' in c.name]
-        ok = False
-        for c in ent:
-            ks = ctx.S.slice_operand(b, c.args[1])
-            ok = {1, 2} <= ks.params and ks.has_field('v1::linear::Term', 'id')
-        tup = [(bi, st) for bi, st in b.stmts() if st['rv']['k'] == 'agg' and st['rv']['adt'] == 'tuple' and len(st['rv']['ops']) == 2 and b.locals[st['dst']['l']] == '(u64, u64)']
-        swapped = len({(T.expr_str(T.expr(b, st['rv']['ops'][0]), 6), T.expr_str(T.expr(b, st['rv']['ops'][1]), 6)) for bi, st in tup}) >= 2
-        lt = any(st['rv']['k'] == 'bin' and st['rv']['op'] in ('Lt', 'Le', 'Gt', 'Ge') and st['rv'].get('ty') == 'u64' for bi, st in b.stmts())
-        ctx.check(ok and swapped and lt, R + '/Linear*Linear/canonical-pair', 'T-CARRY', b.name, 'product keys are not the ordered pair of the two ids', b.site())
+        sites = [s for s in accum_sites(ctx, b) if s['kind'] == 'add' and s['key'] is not None]
+        def ident(e):
+            """'L' / 'R': the id of a term of self / of rhs"""
+            e = T.strip_wrappers(e)
+            if not expr_has_field(e, 'v1::linear::Term', 'id'): return None
+            ps = expr_params(ctx, b, e)
+            return {frozenset([1]): 'L', frozenset([2]): 'R'}.get(frozenset(ps))
+        why = 'no `map[key] += ..` found'; ok = False
+        for s in sites:
+            alts = pair_alts(b, s['key'])
+            if alts is None: why = 'the key is not a pair'; ok = False; break
+            v = ordered_pair(b, alts, ident)
+            if v == 'ordered' or (v == 'unordered' and s['map'] is not None and feeds_canonicalising_consumer(ctx, b, s['map'])): ok = True
+            else: ok = False; why = v; break
+        ctx.check(ok, R + '/Linear*Linear/canonical-pair', 'T-CARRY', b.name, 'product keys are not the ordered pair of the two ids (%s)' % why, b.site())
         # cross terms: c*rhs + r*self - r*c
-        ws = [(bi, st) for bi, st in b.stmts() if st['dst']['p'] and fields_of_place(st['dst'])[-1:] == [('v1::Quadratic', 'linear')]]
         okl = False
-        for bi, st in ws:
-            s = ctx.S.slice_operand(b, st['rv']['ops'][0])
-            kinds = sorted({re.search(r'ops::(\w+)$', c.trait).group(1) for c in s.call_objs if is_ops_call(c)})
-            okl = {1, 2} <= s.params and 'Add' in kinds and 'Sub' in kinds and 'Mul' in kinds and s.has_field('v1::Linear', 'constant')
+        for st_ in field_stores(b, 'v1::Quadratic', 'linear'):
+            if st_[1] is None: continue
+            s = ctx.S.slice_operand(b, st_[1])
+            kinds = {ops_kind(c.trait) for c in s.call_objs if is_ops_call(c)}
+            negf = any(st['rv']['k'] == 'un' and st['rv']['op'] == 'Neg' and st['dst']['l'] in s.locals for bi, st in b.stmts())
+            consts = {(p, f) for p, a, f in s.root_fields}
+            okl = {1, 2} <= s.params and {'Add', 'Mul'} <= kinds and ('Sub' in kinds or 'Neg' in kinds or negf) and {(1, 'constant'), (2, 'constant')} <= consts
         ctx.check(okl, R + '/Linear*Linear/cross-terms', 'T-CARRY', b.name, 'linear part of the product is not self*r + c*rhs - r*c', b.site())
         # every pair of terms
-        loops = T.for_loops(b)
-        ok2 = len(loops) == 2 and ent and all(T.must_pass(b, lo[2], {lo[1]}, {ent[0].bb}) for lo in loops if ent[0].bb in lo[4] and len(lo[4]) == min(len(l[4]) for l in loops))
-        ctx.check(bool(ok2), R + '/Linear*Linear/every-pair', 'T-LOOPMUST', b.name, 'not every pair of terms contributes', b.site())
+        ctx.check(every_pair(ctx, b, accum_sites(ctx, b)), R + '/Linear*Linear/every-pair', 'T-LOOPMUST', b.name, 'not every pair of terms contributes', b.site())
     # FromIterator<((u64,u64),f64)> for Quadratic
     b = ctx.F.one('v1::Quadratic', 'from_iter', trait='FromIterator', targs=['((u64, u64), f64)'])
     if b is None: ctx.lost(R + '/Quadratic::from_iter', 'FromIterator for Quadratic')
     else:
         ctx.fn(b)
-        lt = any(st['rv']['k'] == 'bin' and st['rv']['op'] in ('Lt', 'Le', 'Gt', 'Ge') and st['rv'].get('ty') == 'u64' for bi, st in b.stmts())
-        adds = any(st['rv']['k'] == 'bin' and st['rv']['op'] == 'Add' and st['rv'].get('ty') == 'f64' and st['dst']['p'] for bi, st in b.stmts())
-        ctx.check(lt and adds, R + '/Quadratic::from_iter/canonical-and-merged', 'T-CARRY', b.name, 'entries are not keyed by the ordered pair and merged by addition', b.site())
+        sites = [s for s in accum_sites(ctx, b) if s['kind'] == 'add' and s['key'] is not None]
+        def ident2(e):
+            """which component of the incoming key: the tuple-field path below the loop item"""
+            e = T.strip_wrappers(e)
+            if e[0] not in ('place', 'proj'): return None
+            fs = tuple(f for a, f in e[2] if a == 'tuple')
+            return fs if fs and 1 in expr_params(ctx, b, e) else None
+        ok = bool(sites) and 1 in merge_sink_params(ctx, b); why = 'items are not merged by `map[key] += value` for every item'
+        for s in sites:
+            alts = pair_alts(b, s['key'])
+            v = ordered_pair(b, alts, ident2) if alts else 'bad: the key is not a pair'
+            if v != 'ordered': ok = False; why = v
+        ctx.check(ok, R + '/Quadratic::from_iter/canonical-and-merged', 'T-CARRY', b.name, 'entries are not keyed by the ordered pair and merged by addition (%s)' % why, b.site())
         aggs = find_aggregates(b, 'v1::Quadratic')
         okp = False
         for bi, st in aggs:
@@ -314,95 +876,180 @@ def keys_rules(ctx):
                 if c.item == 'push':
                     r = T.access_path(b, c.args[0], transparent=T.TRANSPARENT_NOCLONE)[1]
                     pushed[r] = [f for a, f in T.expr_fields(T.expr(b, c.args[1], depth=10)) if a == 'tuple']
-            okp = pushed.get(roots['rows'], [None])[:2] != pushed.get(roots['columns'], [None])[:2] and len(pushed) == 3
+            okp = pushed.get(roots['rows'], [None])[:2] != pushed.get(roots['columns'], [None])[:2] and all(roots[f] in pushed for f in roots) and len(set(roots.values())) == 3
         ctx.check(okp, R + '/Quadratic::from_iter/rows-columns', 'T-CARRY', b.name, 'rows and columns are not filled from the two components of the key', b.site())
     # Quadratic*Quadratic and Polynomial*Polynomial: ids = id_r + id_l, value_l*value_r, every pair
     for ty in ('v1::Quadratic', 'v1::Polynomial'):
         b = ctx.F.one(ty, 'mul', trait='Mul', targs=[ty])
         if b is None: ctx.lost(R + '/%s*%s' % (ty, ty), 'Mul'); continue
         ctx.fn(b)
-        ent = [c for c in b.calls if c.item == 'entry' and 'BTreeMap' in c.name]
-        ok = False
-        for c in ent:
-            ks = ctx.S.slice_operand(b, c.args[1])
-            ok = {1, 2} <= ks.params and any(x.item == 'add' and 'SortedIds' in x.name for x in ks.call_objs)
-        vals = [(bi, st) for bi, st in b.stmts() if st['rv']['k'] == 'bin' and st['rv']['op'] == 'Mul' and st['rv'].get('ty') == 'f64']
-        okv = False
-        for bi, st in vals:
-            s0 = ctx.S.slice_operand(b, st['rv']['ops'][0]).params; s1 = ctx.S.slice_operand(b, st['rv']['ops'][1]).params
-            okv = (1 in s0 and 2 in s1) or (2 in s0 and 1 in s1)
-        ctx.check(ok and okv and len(vals) == 1, R + '/%s*%s/keys-and-values' % (ty.split('::')[-1], ty.split('::')[-1]), 'T-CARRY', b.name, 'product terms are not (ids_l + ids_r, c_l * c_r)', b.site())
+        sites = [s for s in accum_sites(ctx, b) if s['kind'] == 'add' and s['key'] is not None]
+        ok = okv = bool(sites)
+        for s in sites:
+            ks = ctx.S.slice_operand(b, s['key'])
+            ok = ok and {1, 2} <= ks.params and ks.has_call(r'SortedIds as std::ops::Add>::add')
+            okv = okv and product_of_both(ctx, b, s['val'])
+        short = ty.split('::')[-1]
+        ctx.check(ok and okv, R + '/%s*%s/keys-and-values' % (short, short), 'T-CARRY', b.name, 'product terms are not (ids_l + ids_r, c_l * c_r)', b.site())
+        ctx.check(every_pair(ctx, b, accum_sites(ctx, b)), R + '/%s*%s/every-pair' % (short, short), 'T-LOOPMUST', b.name, 'not every pair of terms contributes', b.site())
     # SortedIds::add keeps both operands' ids sorted
     b = ctx.F.one('sorted_ids::SortedIds', 'add', trait='Add')
     if b is not None:
         ctx.fn(b)
         rs = ctx.S.backslice(b, [0])
         ctx.check({1, 2} <= rs.params and (rs.has_call(r'sort') or rs.has_call(r'SortedIds::new') or rs.has_call('merge')), R + '/SortedIds::add', 'T-CARRY', b.name, 'concatenated ids are not re-sorted / do not contain both operands', b.site())
-    ctx.floor(R, 6)
+    ctx.floor(R, 10)
 
 
-def kernel_add_rules(ctx):
-    """hand-written same-type additions: every term of both operands reaches the map; merged by +=; constant added"""
+def product_of_both(ctx, b, val_operand):
+    """the merged value is `c_l * c_r`: an f64 product with one factor from each operand.  The product may
+    stand in this body or in a closure of an adaptor that was not spliced (then: a factor captured from the
+    environment times a factor of the closure's item)."""
+    vs = ctx.S.slice_operand(b, val_operand)
+    if not {1, 2} <= vs.params: return False
+    for bi, st in b.stmts():
+        rv = st['rv']
+        if rv['k'] == 'bin' and rv['op'] == 'Mul' and rv.get('ty') == 'f64' and st['dst']['l'] in vs.locals:
+            s0 = ctx.S.slice_operand(b, rv['ops'][0]).params; s1 = ctx.S.slice_operand(b, rv['ops'][1]).params
+            if (1 in s0 and 2 in s1) or (2 in s0 and 1 in s1): return True
+    for cl in vs.closures:
+        cb = ctx.F.bodies.get(cl)
+        if cb is None: continue
+        for bi, st in cb.stmts():
+            rv = st['rv']
+            if rv['k'] == 'bin' and rv['op'] == 'Mul' and rv.get('ty') == 'f64':
+                s0 = ctx.S.slice_operand(cb, rv['ops'][0]).params; s1 = ctx.S.slice_operand(cb, rv['ops'][1]).params
+                # param 1 of a closure body = its environment (captures), param 2 = the item
+                if (1 in s0 and 2 in s1) or (2 in s0 and 1 in s1): return True
+    return False
+
+
+# =============================================================================== C02.kernel
+def merge_rule(ctx, b, rid, ty, term_adt, keyf, valf):
+    """same-type addition: every term of BOTH operands is merged into the result by `map[key] += coefficient`.
+    Either the body has the merging loop(s) itself, or it hands an iterator over both operands' terms to a
+    crate function that merges every item (Linear::new, FromIterator — decided from that function's body)."""
+    short = ty.split('::')[-1]
+    sites = accum_sites(ctx, b)
+    loops = loops_of(ctx, b)
+    rs = ctx.S.backslice(b, [0])
+    probs = []; covered = set()
+    for L in loops:
+        ps = L['it'].params & {1, 2}
+        if not ps or not L['it'].has_field(ty, 'terms'): continue
+        touching = [s for s in sites if s['bb'] in L['blocks'] and innermost_loop(loops, s['bb']) is L]
+        if not touching: continue                      # a loop that does not put anything into a map
+        if any(s['map'] is not None and s['map'] not in rs.locals for s in touching): continue   # a map that does not reach the result
+        ok, adds = loop_merges(b, L, sites)
+        if restricted(L['it']): probs.append('the loop over the terms is restricted by %s' % restricted(L['it']))
+        if not ok or any(s['kind'] == 'overwrite' for s in touching):
+            probs.append('terms of operand %s are put into the map without `+=` (duplicates are lost)' % sorted(ps)); continue
+        good = True
+        for s in adds:
+            kx = ctx.S.slice_operand(b, s['key']) if s['key'] is not None else None
+            vx = ctx.S.slice_operand(b, s['val'])
+            if kx is None or not kx.has_field(term_adt, keyf) or not vx.has_field(term_adt, valf): good = False
+        if not good: probs.append('the merged entry is not (term.%s -> term.%s)' % (keyf, valf)); continue
+        covered |= ps
+    # delegation to a merging constructor
+    for c in b.calls:
+        if c not in rs.call_objs: continue
+        for j in call_sink_params(ctx, c):
+            if j - 1 >= len(c.args): continue
+            s = ctx.S.slice_operand(b, c.args[j - 1])
+            ps = {p for p, a, f in s.root_fields if f == 'terms'} & {1, 2}
+            if not ps: continue
+            if restricted(s): probs.append('the iterator handed to %s is restricted by %s' % (c.item, restricted(s))); continue
+            if not (s.has_field(term_adt, keyf) and s.has_field(term_adt, valf)): probs.append('the items handed to %s are not (term.%s, term.%s)' % (c.item, keyf, valf)); continue
+            covered |= ps
+    if not probs and covered != {1, 2}: probs.append('terms of operand(s) %s never reach a merging `+=`' % sorted({1, 2} - covered))
+    ctx.check(not probs, rid, 'T-BRANCHFX', b.name, 'terms of both operands are not merged by `map[key] += coefficient` for every term: ' + '; '.join(probs), b.site())
+
+
+def constant_rule(ctx, b, rid):
+    """constant of Linear + Linear is self.constant + rhs.constant — in the aggregate built here, or
+    handed to a constructor that stores its parameter verbatim"""
+    def is_sum(ex):
+        ex = T.arith(ex)
+        return ex[0] == 'bin' and ex[1] == 'Add' and {T.expr_str(ex[2]), T.expr_str(ex[3])} == {'_1.constant', '_2.constant'}
+    verdict = None
+    aggs = find_aggregates(b, 'v1::Linear')
+    for bi, st in aggs:
+        verdict = (verdict is not False) and is_sum(T.expr(b, agg_field_operand(st, 'constant')))
+    if verdict is None:
+        rs = ctx.S.backslice(b, [0])
+        for c in b.calls:
+            if c.dst['l'] != 0 and c not in rs.call_objs: continue
+            cb = ctx.F.bodies.get(c.path) or ctx.F.bodies.get(c.name)
+            if cb is None or cb.kind != 'fn' or not cb.locals[0].endswith('v1::Linear'): continue
+            src = result_field_source(ctx, cb, 'v1::Linear', 'constant')
+            if src and src[0] == 'param' and src[1] - 1 < len(c.args):
+                verdict = is_sum(T.expr(b, c.args[src[1] - 1]))
+    if verdict is None:
+        # not recognised: the weaker condition on the slice of the result's constant
+        s = ctx.S.backslice(b, [(0, 'constant')])
+        roots = {(p, f) for p, a, f in s.root_fields}
+        adds = any(st['rv']['k'] == 'bin' and st['rv']['op'] == 'Add' and st['rv'].get('ty') == 'f64' and st['dst']['l'] in s.locals for bi, st in b.stmts())
+        if {(1, 'constant'), (2, 'constant')} <= roots and adds:
+            weakly(ctx, rid, 'T-BRANCHFX', b, 'the constant of the result is not built in a recognised way; it depends on both constants through an f64 addition'); return
+        verdict = False
+    ctx.check(verdict, rid, 'T-BRANCHFX', b.name, 'constant of the sum is not self.constant + rhs.constant', b.site())
+
+
+def exact_zero_targets(b):
+    """blocks entered only when the scalar (param 2) is exactly zero.  Idioms: `rhs.is_zero()`,
+    `rhs == 0.0` / `0.0 == rhs`, `rhs != 0.0` (other side)."""
+    out = set(); other = []
+    def is_rhs(o): return T.strip_wrappers(T.expr(b, o))[:3] == ('place', 2, [])
+    for c in b.calls:
+        if c.item == 'is_zero' and c.args and is_rhs(c.args[0]):
+            for g in T.guards_from_call(b, c):
+                if g.true_bb is not None: out.add(g.true_bb)
+    for bi, st in float_cmp_sites(b, ('Eq', 'Ne', 'Lt', 'Le', 'Gt', 'Ge')):
+        rv = st['rv']
+        cs = [T.f64_const(o['v']) for o in rv['ops'] if o['k'] == 'const']
+        exact = rv['op'] in ('Eq', 'Ne') and cs == [0.0] and any(o['k'] != 'const' and is_rhs(o) for o in rv['ops'])
+        for g in T.guards_from_local(b, st['dst']['l'], bi):
+            if exact:
+                t = g.true_bb if rv['op'] == 'Eq' else g.false_bb
+                if t is not None: out.add(t)
+            else:
+                other.append('cmp %s %s' % (rv['op'], [o['v'] for o in rv['ops'] if o['k'] == 'const']))
+    return out, other
+
+
+def kernel_rules(ctx):
+    """hand-written kernels: same-type additions merge every term of both operands; scalar multiplication
+    scales every coefficient and has no shortcut except for a scalar that is exactly zero"""
     R = 'C02.kernel'
     for ty, term_adt, keyf, valf in (('v1::Linear', 'v1::linear::Term', 'id', 'coefficient'), ('v1::Polynomial', 'v1::Monomial', 'ids', 'coefficient')):
         b = ctx.F.one(ty, 'add', trait='Add', targs=[ty])
         if b is None: ctx.lost(R + '/%s+%s' % (ty, ty), 'Add'); continue
         ctx.fn(b)
-        loops = T.for_loops(b)
-        ok = False
-        for lo in loops:
-            si = ctx.S.slice_operand(b, lo[0].args[0])
-            both = {1, 2} <= si.params and any(c.item == 'chain' for c in si.call_objs)
-            ent = [c for c in b.calls if c.bb in lo[4] and c.item == 'entry']
-            adds = [(bi, st) for bi, st in b.stmts() if bi in lo[4] and st['rv']['k'] == 'bin' and st['rv']['op'] == 'Add' and st['rv'].get('ty') == 'f64' and st['dst']['p']]
-            if both and len(ent) == 1 and len(adds) == 1:
-                kx = ctx.S.slice_operand(b, ent[0].args[1]); vx = T.expr(b, [o for o in adds[0][1]['rv']['ops'] if not (o['k'] in ('copy', 'move') and o['pl'] == adds[0][1]['dst'])][0])
-                ok = kx.has_field(term_adt, keyf) and (term_adt, valf) in T.expr_fields(vx) and T.must_pass(b, lo[2], {lo[1]}, {adds[0][0]})
-        ctx.check(ok, R + '/%s+%s/merge' % (ty.split('::')[-1], ty.split('::')[-1]), 'T-BRANCHFX', b.name, 'terms of both operands are not merged by `map[key] += coefficient` for every term', b.site())
+        short = ty.split('::')[-1]
+        merge_rule(ctx, b, R + '/%s+%s/merge' % (short, short), ty, term_adt, keyf, valf)
         if ty == 'v1::Linear':
-            aggs = find_aggregates(b, 'v1::Linear')
-            okc = False
-            for bi, st in aggs:
-                ex = T.arith(T.expr(b, agg_field_operand(st, 'constant')))
-                okc = ex[0] == 'bin' and ex[1] == 'Add' and {T.expr_str(ex[2]), T.expr_str(ex[3])} == {'_1.constant', '_2.constant'}
-            ctx.check(okc, R + '/Linear+Linear/constant', 'T-BRANCHFX', b.name, 'constant of the sum is not self.constant + rhs.constant', b.site())
-    for ty in ('v1::Linear', 'v1::Polynomial', 'v1::Quadratic'):
+            constant_rule(ctx, b, R + '/Linear+Linear/constant')
+    for ty, adt, fld in (('v1::Linear', 'v1::linear::Term', 'coefficient'), ('v1::Polynomial', 'v1::Monomial', 'coefficient'), ('v1::Quadratic', 'v1::Quadratic', 'values')):
         b = ctx.F.one(ty, 'mul', trait='Mul', targs=['f64'])
-        if b is None: continue
+        if b is None: ctx.lost(R + '/%s*f64' % ty, 'Mul<f64>'); continue
         ctx.fn(b)
-        # scaling: every coefficient (and the constant) multiplied by rhs; rhs == 0 => zero()
-        muls = [c for c in b.calls if T.ASSIGN_CALL.match(c.name) and 'Mul' in c.name]
-        ok = bool(muls) and all(T.strip_wrappers(T.expr(b, c.args[1])) == ('place', 2, []) for c in muls)
-        inpl = [(bi, st) for bi, st in b.stmts() if st['rv']['k'] == 'bin' and st['rv']['op'] == 'Mul' and st['rv'].get('ty') == 'f64' and st['dst']['p']
-                and any(o['k'] in ('copy', 'move') and o['pl'] == st['dst'] for o in st['rv']['ops'])]
-        if not muls and inpl:
-            ok = all(any(T.strip_wrappers(T.expr(b, o)) == ('place', 2, []) for o in st['rv']['ops']) for bi, st in inpl)
-            # in a loop over every term / value (and the constant for Linear)
-            inloop = [bi for bi, st in inpl if any(bi in bl for bl in b.loops().values())]
-            ok = ok and bool(inloop) and (ty != 'v1::Linear' or any(fields_of_place(st['dst'])[-1:] == [('v1::Linear', 'constant')] for bi, st in inpl))
-        ctx.check(ok, R + '/%s*f64/scales' % ty.split('::')[-1], 'T-BRANCHFX', b.name, 'coefficients are not multiplied by the scalar', b.site())
-        # the only shortcut is for an exactly zero scalar (a tiny non-zero scalar must still scale the function)
-        zs = [c for c in b.calls if c.item == 'zero' and c.bb in b.live]
-        okz = True; why = ''
-        for z in zs:
-            guards = []
-            for c in b.calls:
-                if c.item == 'is_zero' and T.strip_wrappers(T.expr(b, c.args[0])) == ('place', 2, []):
-                    for g in T.guards_from_call(b, c):
-                        if z.bb in b.reach([g.true_bb]) and z.bb not in b.reach([g.false_bb]): guards.append('is_zero')
-            for bi, st in float_cmp_sites(b, ('Eq', 'Ne', 'Lt', 'Le', 'Gt', 'Ge')):
-                for g in T.guards_from_local(b, st['dst']['l'], bi):
-                    side = [t for t in (g.true_bb, g.false_bb) if t is not None and z.bb in b.reach([t]) and z.bb not in b.reach([x for x in (g.true_bb, g.false_bb) if x is not None and x != t])]
-                    if side:
-                        cs = [o['v'] for o in st['rv']['ops'] if o['k'] == 'const']
-                        exact = st['rv']['op'] in ('Eq', 'Ne') and cs == ['0f64']
-                        guards.append('exact-zero' if exact else 'cmp %s %s' % (st['rv']['op'], cs))
-            if not guards or any(g not in ('is_zero', 'exact-zero') for g in guards):
-                okz = False; why = str(guards)
-        ctx.check(okz, R + '/%s*f64/only-exact-zero-shortcut' % ty.split('::')[-1], 'T-GUARD', b.name, 'the function is replaced by zero under %s, not only for a scalar that is exactly 0' % why, b.site())
-    ctx.floor(R, 5)
+        short = ty.split('::')[-1]
+        # scaling: every coefficient (and the constant of a Linear) is multiplied by rhs
+        Ls = scaled_in_loop(ctx, b, adt, fld)
+        ok = bool(Ls)
+        if ty == 'v1::Linear':
+            ok = ok and any(ctx.S.slice_operand(b, o).has_field('v1::Linear', 'constant') and innermost_loop(loops_of(ctx, b), bb) is None for bb, o in scale_sites(ctx, b))
+        ctx.check(ok, R + '/%s*f64/scales' % short, 'T-BRANCHFX', b.name, 'coefficients are not multiplied by the scalar', b.site())
+        # the only way around the scaling loop is a scalar that is exactly zero (a tiny non-zero scalar must still scale)
+        zt, other = exact_zero_targets(b)
+        via = {L['header'] for L in Ls} | zt
+        okz = bool(Ls) and T.must_pass(b, 0, return_blocks(b), via)
+        ctx.check(okz, R + '/%s*f64/only-exact-zero-shortcut' % short, 'T-GUARD', b.name,
+                  'the function is returned without scaling under %s, not only for a scalar that is exactly 0' % (other or 'some condition'), b.site())
+    ctx.floor(R, 9)
 
 
 def check(ctx):
     impls = op_impls(ctx)
-    table_rules(ctx, impls); deleg_rules(ctx, impls); dispatch_rules(ctx); branches_rules(ctx); iter_rules(ctx); keys_rules(ctx); kernel_add_rules(ctx)
+    table_rules(ctx, impls); deleg_rules(ctx, impls); dispatch_rules(ctx); branches_rules(ctx); iter_rules(ctx); keys_rules(ctx); kernel_rules(ctx)
